@@ -333,43 +333,68 @@ inductive Out where
   | fdt (k id idx : Nat)
   deriving Repr, DecidableEq
 
+/-- the pacing gate of `SenderSession::run` -/
+def gateBlocked (f : FileDesc) (now : Nat) : Bool :=
+  match f.info.nextTs with
+  | some ts => decide (ts > now)
+  | none => false
+
+/-- `BlockEncoder::new(file, interleave, is_last_transfer)` in `SenderSession::get_next`
+    (`is_last_transfer` is evaluated AFTER `transfer_started`, as in the code) -/
+def startCur (s : State) (t : Nat) : Cur :=
+  { key := t, enc := { sent := 0, stopped := false,
+                       closable := match getF s.objs t with | some f => isLastTransfer f | none => false } }
+
+def startFdtCur (k : Nat) : Cur := { key := k, enc := { sent := 0, stopped := false, closable := false } }
+
+/-- a packet of object `key` leaves: `inc_next_transfer_timestamp`, packet appended to the log -/
+def pktStep (s : State) (prio key now idx : Nat) (b : Bool) : State :=
+  emit { s with objs := updF s.objs key tickInfo } (.pkt now prio key idx b)
+
+/-- a packet of the FDT instance held by the FDT session leaves -/
+def fdtStep (s : State) (c : Cur) (e : Enc) (id now idx : Nat) : State :=
+  emit { s with fdts := updF s.fdts c.key tickInfo, fdtSess := some { c with enc := e } } (.fdt now c.key id idx)
+
+/-- `release_file` of the FDT session -/
+def fdtRelease (s : State) (k now : Nat) : State :=
+  { transferDoneFdt s k now with fdtSess := none }
+
+/-- `get_next` of the FDT session -/
+def fdtGetNext (s : State) (now : Nat) : State :=
+  match getNextFdt s now with
+  | (s, some k) => { s with fdtSess := some (startFdtCur k) }
+  | (s, none) => s
+
 /-- `SenderSession::run` for the FDT session (`transfer_fdt_only = true`) -/
 def runFdt : Nat → State → Nat → State × Out
   | 0, s, _ => (s, .hang)
   | fuel + 1, s, now =>
     let s := match s.fdtSess with
       | some _ => s
-      | none =>
-        match getNextFdt s now with
-        | (s, some k) => { s with fdtSess := some { key := k, enc := { sent := 0, stopped := false, closable := false } } }
-        | (s, none) => s
+      | none => fdtGetNext s now
     match s.fdtSess with
     | none => (s, .none)
     | some c =>
       match getF s.fdts c.key with
       | none => (s, .none)
       | some f =>
-        if (match f.info.nextTs with | some ts => decide (ts > now) | none => false) then (s, .none) else
+        if gateBlocked f now then (s, .none) else
         match encRead f.nSym c.enc false with
-        | (none, _) =>
-          let s := transferDoneFdt s c.key now
-          runFdt fuel { s with fdtSess := none } now
-        | (some (idx, _), e) =>
-          let s := { s with fdts := updF s.fdts c.key tickInfo, fdtSess := some { c with enc := e } }
-          (emit s (.fdt now c.key f.fdtId idx), .fdt c.key f.fdtId idx)
+        | (none, _) => runFdt fuel (fdtRelease s c.key now) now
+        | (some (idx, _), e) => (fdtStep s c e f.fdtId now idx, .fdt c.key f.fdtId idx)
 
 /-- `SenderSession::run` for a file session; returns the new slot content -/
 def runFile : Nat → State → Nat → Option Cur → Nat → List (Nat × Nat) → State × Option Cur × Out
   | 0, s, _, cur, _, _ => (s, cur, .hang)
   | fuel + 1, s, prio, cur, now, ticks =>
-    let (s, cur) := match cur with
+    let sc : State × Option Cur := match cur with
       | some c => (s, some c)
       | none =>
         match getNextFile s prio now ticks with
-        | (s, some t) =>
-          let closable := match getF s.objs t with | some f => isLastTransfer f | none => false
-          (s, some { key := t, enc := { sent := 0, stopped := false, closable := closable } })
+        | (s, some t) => (s, some (startCur s t))
         | (s, none) => (s, none)
+    let s := sc.1
+    let cur := sc.2
     if !s.fdtQueue.isEmpty then (s, cur, .none) else
     match cur with
     | none => (s, none, .none)
@@ -377,21 +402,13 @@ def runFile : Nat → State → Nat → Option Cur → Nat → List (Nat × Nat)
       match getF s.objs c.key with
       | none => (s, cur, .none)
       | some f =>
-        let mustStop := canStop f && !s.files.contains c.key
-        if (match f.info.nextTs with | some ts => decide (ts > now) | none => false) then (s, cur, .none) else
-        match encRead f.nSym c.enc mustStop with
-        | (none, _) =>
-          let s := transferDoneFile s c.key now
-          runFile fuel s prio none now ticks
-        | (some (idx, b), e) =>
-          let s := { s with objs := updF s.objs c.key tickInfo }
-          (emit s (.pkt now prio c.key idx b), some { c with enc := e }, .pkt prio c.key idx b)
+        if gateBlocked f now then (s, cur, .none) else
+        match encRead f.nSym c.enc (canStop f && !s.files.contains c.key) with
+        | (none, _) => runFile fuel (transferDoneFile s c.key now) prio none now ticks
+        | (some (idx, b), e) => (pktStep s prio c.key now idx b, some { c with enc := e }, .pkt prio c.key idx b)
 
-/-- fuel of the `loop` in `SenderSession::run`; `run_no_hang` shows 3 iterations are never exceeded -/
+/-- fuel of the `loop` in `SenderSession::run` (`Props.C12.run_no_hang`: never exhausted) -/
 def runFuel : Nat := 4
-
-/- note: `get_next_file_transfer` calls `transfer_started` (which may reset `transfer_count`) and
-   `is_last_transfer` is evaluated afterwards on the returned file - as modelled in `runFile`. -/
 
 /-! ### sender.rs -/
 
